@@ -15,6 +15,8 @@ class Config:
     def __init__(self, name, contract, setup, replay=None, finite=None):
         """finite: optional callable(ex) -> (lo, hi, extra constraints) enabling bounded refutation of undecided obligations"""
         self.name, self.contract, self.setup, self.replay, self.finite = name, contract, setup, replay, finite
+        self.bmc = None          # optional: callable -> Config for bounded refutation by loop unrolling
+        self.bmc_domain = (-1, 8)
 
 
 class Target:
